@@ -364,12 +364,23 @@ def tok_value(tok, back):
             parts.append(b)
     return parts
 
-def num_term(parts):
-    """(value term, bits) of a token that is one number: a DecRun or concrete digits"""
+def num_term(parts, ctx=None):
+    """value of a token that is one number: a DecRun, concrete digits, or up to three bytes that are digits on every model
+    of the path (a hand-written fast path such as `b'0' + v`); None if the token is not a number"""
     if len(parts) == 1 and isinstance(parts[0], DecRun):
         return parts[0].val
     if parts and all(isinstance(b, int) and 48 <= b <= 57 for b in parts):
         return int(bytes(parts))
+    if ctx is not None and 0 < len(parts) <= 3 and all(isinstance(b, int) or (is_sym(b) and z3.is_bv(b) and b.size() == 8) for b in parts):
+        v = z3.BitVecVal(0, 72)
+        for b in parts:
+            B = bv(b, 8)
+            if not ctx.must(z3.And(z3.UGE(B, 48), z3.ULE(B, 57))):
+                return None
+            v = v * 10 + z3.ZeroExt(64, B - 48)
+        if len(parts) > 1 and not ctx.must(bv(parts[0], 8) != 48):
+            return None          # leading zero
+        return z3.simplify(v)
     return None
 
 def split_parts(parts, ch):
@@ -395,16 +406,17 @@ def check_token(ctx, exp, parts):
         return None
     kind = exp[0]
     if kind == 'num':
-        t = num_term(parts)
+        t = num_term(parts, ctx)
         if t is None:
-            return 'not a number: %r' % (parts,)
+            sb = [bv(b, 8) for b in parts if is_sym(b) and z3.is_bv(b) and b.size() == 8]
+            return ('not a number: %r' % (parts,), z3.Or(*[z3.Or(z3.ULT(B, 48), z3.UGT(B, 57)) for B in sb]) if sb else z3.BoolVal(True))
         w = exp[1]
         c = int_eq(bv(t, 72), bv(w, 72))
         return None if ctx.must(c) else ('number differs from the parameter', c)
     if kind == 'rel':
         if not parts or parts[0] != exp[1][0]:
             return 'relative position without %r sign: %r' % (exp[1], parts)
-        t = num_term(parts[1:])
+        t = num_term(parts[1:], ctx)
         if t is None:
             return 'not a number after the sign'
         c = int_eq(bv(t, 72), bv(exp[2], 72))
@@ -413,8 +425,8 @@ def check_token(ctx, exp, parts):
         sp = split_parts(parts, ord(':'))
         if sp is None:
             return 'range without colon: %r' % (parts,)
-        f = num_term(sp[0])
-        t = num_term(sp[1]) if sp[1] else None
+        f = num_term(sp[0], ctx)
+        t = num_term(sp[1], ctx) if sp[1] else None
         if f is None or (sp[1] and t is None):
             return 'range bounds are not numbers: %r' % (parts,)
         sb, eb = exp[1], exp[2]
@@ -456,6 +468,7 @@ def run_instance(payload):
     ty, builder = TABLE[name]
     def harness(I):
         p = Params(I, P)
+        I._p = p
         c, exp = builder(I, P, p)
         cty = ty
         if isinstance(c, tuple):
@@ -555,7 +568,7 @@ class ConcreteParams:
     def nxt(self):
         v = self.vals[self.i]; self.i += 1
         return v
-    def uint(self, bits): return int(self.nxt())
+    def uint(self, bits): return z3.BitVecVal(int(self.nxt()), bits)
     def string(self):
         s = unhex(self.nxt()); return None, s
     def boolean(self): return self.nxt() == '1'
@@ -598,6 +611,8 @@ def concrete_expectation(name, params):
     for e in exp:
         if isinstance(e, tuple) and e[0] == 'num' and is_sym(e[1]):
             out.append(('num', z3.simplify(e[1]).as_long()))
+        elif isinstance(e, tuple) and e[0] == 'rel' and is_sym(e[2]):
+            out.append(('rel', e[1], z3.simplify(e[2]).as_long()))
         else:
             out.append(e)
     return out
